@@ -37,11 +37,20 @@ def r1(c):
     reassign = [n for n in walk_no_nested(fn) if isinstance(n, ast.Assign) and norm(n.targets[0]) == "self.itms"]
     c.check("C08.R1", not reassign, repo.loc(m, reassign[0] if reassign else fn), "PatchTree.sort/no-rebuild", f"`{norm(reassign[0])[:60] if reassign else ''}` rebuilds the item list while sorting (may drop/duplicate commands)", key_text="rebuild")
     gm = GuardMap(fn)
-    rec = [x for x in calls_in(fn) if isinstance(x.func, ast.Attribute) and x.func.attr == "sort" and "child" in norm(x.func.value)]
+    rec = [x for x in calls_in(fn) if isinstance(x.func, ast.Attribute) and x.func.attr == "sort" and not x.args and not x.keywords and x not in sorts]
     ok = len(rec) == 1
     if ok:
+        # every item's child (when there is one) is sorted: the loop walks self.itms, possibly through a list of the non-empty children
         f = gm.formula(rec[0])
-        ok = all("child" in a for a in G.atoms(f)) and bool(gm.in_loop(rec[0])) and norm(gm.in_loop(rec[0])[-1].iter) == "self.itms"
+        lp = gm.in_loop(rec[0])
+        ok = bool(lp) and isinstance(lp[-1], ast.For)
+        if ok:
+            bases, filters = Provenance(fn).iteration_bases(lp[-1].iter)
+            ok = bases == {"self.itms"} and all("child" in norm(t) for t in filters) and all("child" in a for a in G.atoms(f))
+            recv = rec[0].func.value
+            tgt = lp[-1].target.id if isinstance(lp[-1].target, ast.Name) else None
+            ok = ok and (norm(recv) == f"{tgt}.child" or (norm(recv) == tgt and filters != [] or norm(recv) == tgt and "child" in norm(lp[-1].iter) or
+                                                              (norm(recv) == tgt and any("child" in norm(d.value) for d in Provenance(fn).rd.defs(lp[-1].iter) if d.value is not None) if isinstance(lp[-1].iter, ast.Name) else False)))
     c.check("C08.R1", ok, repo.loc(m, fn), "PatchTree.sort/recursive", "children blocks are not all sorted recursively", key_text="recursive")
     # make_patch: tree.sort() before return, one item per entry
     mp = repo.func(PATCHING, "make_patch")
@@ -57,38 +66,26 @@ def r1(c):
     # order_config
     oc = repo.func(PATCHING, "Orderer.order_config")
     gm3 = GuardMap(oc)
-    pv = Provenance(oc)
-    loop = [st for st in oc.body if isinstance(st, ast.For) and norm(st.iter) == "config.items()"]
-    if len(loop) != 1:
-        raise AnchorError("order_config: loop over config.items() not found")
-    loop = loop[0]
-    app = [x for x in calls_in(loop) if isinstance(x.func, ast.Attribute) and x.func.attr == "append"]
-    ok = len(app) == 1 and gm3.formula(app[0]) == gm3.formula(loop) and not [n for n in walk_no_nested(loop) if isinstance(n, (ast.Continue, ast.Break, ast.Return))]
+    if _reversed_sorted(oc):
+        fl = _reversed_sorted(oc)[0]
+        c.violated("C08.R1", repo.loc(m, fl), "order_config/result", f"the result is assembled from `{norm(fl)[:60]}`, a reversed sorted sequence, not from one stable sort of the records "
+                   "(rows of equal order change places)", key_text="oc-result")
+        return
+    rc = ranked_config(repo, m, oc)
+    loop, app = rc["loop"], rc["append"]
+    ok = gm3.formula(app) == gm3.formula(loop) and not [n for n in walk_no_nested(loop) if isinstance(n, (ast.Continue, ast.Break, ast.Return))]
     c.check("C08.R1", ok, repo.loc(m, loop), "order_config/one-record-per-row", "a config row may be skipped (or recorded twice) while ordering", key_text="oc-append")
-    if app and isinstance(app[0].args[0], ast.Dict):
-        d = {k.value: v for k, v in zip(app[0].args[0].keys, app[0].args[0].values) if isinstance(k, ast.Constant)}
-        rowv = loop.target.elts[0].id
-        ok = "row" in d and norm(d["row"]) == rowv
-        c.check("C08.R1", ok, repo.loc(m, app[0]), "order_config/record.row", "recorded row is not the config row", key_text="oc-row")
-        # children ordered by child orderer built from get_order's rules
-        go = [x for x in calls_in(loop) if isinstance(x.func, ast.Attribute) and x.func.attr == "get_order"]
-        co = [x for x in calls_in(loop) if call_name(x) == "Orderer"]
-        ok = False
-        if go and co and "children" in d:
-            rb_arg = co[0].args[0] if co[0].args else None
-            rb_ok = isinstance(rb_arg, ast.Name) and any(dd.kind == "unpack" and dd.value is go[0] and dd.index == (2,) for dd in pv.rd.defs(rb_arg))
-            ch_calls = pv.origin_calls(d["children"], through_calls=False)
-            ch_ok = any(isinstance(x.func, ast.Attribute) and x.func.attr == "order_config" and x.args and norm(x.args[0]) == loop.target.elts[1].id for x in ch_calls)
-            ok = rb_ok and ch_ok and norm(go[0].args[0]) == rowv
-        c.check("C08.R1", ok, repo.loc(m, loop), "order_config/children", "children are not ordered by a child Orderer built from the rules get_order returned for this row", key_text="oc-children")
+    rowv, chv = loop.target.elts[0].id, loop.target.elts[1].id
+    c.check("C08.R1", rc["row"] is not None and norm(rc["row"]) == rowv, repo.loc(m, app), "order_config/record.row", "recorded row is not the config row", key_text="oc-row")
+    # children ordered by a child orderer built from the rules get_order returned for this very row
+    ch = rc["children"]
+    ok = isinstance(ch, ast.Call) and isinstance(ch.func, ast.Attribute) and ch.func.attr == "order_config" and len(ch.args) == 1 and norm(ch.args[0]) == chv \
+        and isinstance(ch.func.value, ast.Call) and call_name(ch.func.value) == "Orderer" and ch.func.value.args and _n(ch.func.value.args[0]) == rc["go"][2] \
+        and rc["go_call"].args and norm(rc["go_call"].args[0]) == rowv
+    c.check("C08.R1", bool(ok), repo.loc(m, loop), "order_config/children", "children are not ordered by a child Orderer built from the rules get_order returned for this row", key_text="oc-children")
+    ok = rc["projection_ok"] and not rc["filters"] and not rc["reverse"]
+    c.check("C08.R1", ok, repo.loc(m, rc["sort"]), "order_config/result", "the result is not built from the sorted records without a filter as (row, children) pairs", key_text="oc-result")
     ret = [n for n in walk_no_nested(oc) if isinstance(n, ast.Return)][-1]
-    gens = [n for n in ast.walk(ret.value) if isinstance(n, ast.GeneratorExp)]
-    srt = [x for x in ast.walk(ret.value) if isinstance(x, ast.Call) and call_name(x) == "sorted"]
-    ok = bool(gens) and not gens[0].generators[0].ifs and bool(srt) and norm(srt[0].args[0]) == "ordered" and not any(k.arg == "reverse" for k in srt[0].keywords)
-    if ok:
-        elt = gens[0].elt
-        ok = isinstance(elt, ast.Tuple) and [norm(e).replace('"', "'") for e in elt.elts] == ["item['row']", "item['children']"]
-    c.check("C08.R1", ok, repo.loc(m, ret), "order_config/result", "the result is not built from sorted(ordered, ...) without a filter as (row, children) pairs", key_text="oc-result")
     early = [n for n in walk_no_nested(oc) if isinstance(n, ast.Return) and n is not ret]
     for n in early:
         f = gm3.formula(n)
@@ -97,10 +94,164 @@ def r1(c):
         c.check("C08.R1", ok, repo.loc(m, n), f"order_config/early-return:{txt}", f"early `return {txt}` under {G.show(f)} may drop rows", key_text=f"early-{txt}")
 
 
-def _key_checks(c, m, where, key_expr, item_names, order_field, direct_field, at):
+def _n(e):
+    return norm(e).replace('"', "'")
+
+
+def _is_neg_of(e, txt):
+    return isinstance(e, ast.UnaryOp) and isinstance(e.op, ast.USub) and _n(e.operand) == txt
+
+
+def sign_convention_ok(first, conds, order_txt, direct_txt):
+    """`first` (first component of a sort key, symbolically evaluated) is order when direct and -order otherwise, either as a conditional
+    expression or because the path it was computed on decides the flag"""
+    if first is None:
+        return False
+    if isinstance(first, ast.IfExp):
+        t, neg = first.test, False
+        while isinstance(t, ast.UnaryOp) and isinstance(t.op, ast.Not):
+            t, neg = t.operand, not neg
+        if _n(t) != direct_txt:
+            return False
+        a, b = (first.orelse, first.body) if neg else (first.body, first.orelse)
+        return _n(a) == order_txt and _is_neg_of(b, order_txt)
+    env = G.GuardEnv(rename=lambda s_: "direct" if s_.replace('"', "'") == direct_txt else s_)
+    f = G.And(*[(G.formula(t, env) if pol else G.Not(G.formula(t, env))) for t, pol in conds])
+    if G.implies(f, G.Atom("direct")) and G.satisfiable(f):
+        return _n(first) == order_txt
+    if G.implies(f, G.Not(G.Atom("direct"))) and G.satisfiable(f):
+        return _is_neg_of(first, order_txt)
+    return False
+
+
+def apply_key(repo, m, keyf, record):
+    """the value a sort-key callable gives for `record` (a Dict/Tuple literal over the loop's variables): lambda, operator.itemgetter/attrgetter, or a module-level function"""
+    from sa import symexec
+    if isinstance(keyf, ast.Lambda) and keyf.args.args:
+        return symexec.simplify(symexec.subst(keyf.body, {keyf.args.args[0].arg: record}))
+    if isinstance(keyf, ast.Call) and call_name(keyf).split(".")[-1] == "itemgetter" and len(keyf.args) == 1:
+        return symexec.simplify(ast.Subscript(value=symexec._clone(record), slice=keyf.args[0], ctx=ast.Load()))
+    if isinstance(keyf, ast.Name):
+        r = repo.resolve(m, keyf.id)
+        if r and isinstance(r[2], ast.FunctionDef):
+            kf = repo.canon(r[0], r[2])
+            ps = symexec.paths(kf.body, {kf.args.args[0].arg: record} if kf.args.args else {})
+            vals = [(p_.conds, p_.returned) for p_ in ps if p_.returned is not None]
+            if len(vals) == 1:
+                return vals[0][1]
+            if len(vals) == 2 and len(vals[0][0]) == 1 and len(vals[1][0]) == 1 and norm(vals[0][0][0][0]) == norm(vals[1][0][0][0]):
+                # two paths split on one test: a conditional value
+                (c0, v0), (c1, v1) = vals
+                a, b = (v0, v1) if c0[0][1] else (v1, v0)
+                if isinstance(a, ast.Tuple) and isinstance(b, ast.Tuple) and len(a.elts) == len(b.elts):
+                    return ast.Tuple(elts=[(x if norm(x) == norm(y) else ast.IfExp(test=c0[0][0], body=x, orelse=y)) for x, y in zip(a.elts, b.elts)], ctx=ast.Load())
+                return ast.IfExp(test=c0[0][0], body=a, orelse=b)
+    return None
+
+
+def _reversed_sorted(oc):
+    pvo = Provenance(oc)
+    flipped = []
+    # reversing a sorted sequence is not the descending stable sort: equal keys come out in the opposite of their input order
+    for x in ast.walk(oc):
+        tgt = None
+        if isinstance(x, ast.Call) and call_name(x) == "reversed" and x.args:
+            tgt = x.args[0]
+        elif isinstance(x, ast.Subscript) and isinstance(x.slice, ast.Slice) and x.slice.lower is None and x.slice.upper is None and x.slice.step is not None and norm(x.slice.step) == "-1":
+            tgt = x.value
+        elif isinstance(x, ast.Call) and isinstance(x.func, ast.Attribute) and x.func.attr == "reverse" and not x.args:
+            tgt = x.func.value
+        if tgt is not None:
+            v = pvo.resolve_alias(tgt)
+            if (isinstance(v, ast.Call) and call_name(v) == "sorted") or any(call_name(o) == "sorted" for o in pvo.origin_calls(tgt, through_calls=False)):
+                flipped.append(x)
+    return flipped
+
+
+def ranked_config(repo, m, oc):
+    """Orderer.order_config as a ranked collection: one record per config row, a sort of the records by a key, a projection of the sorted records to (row, children)"""
+    from sa import symexec
+    pv = Provenance(oc)
+    loops = [st for st in oc.body if isinstance(st, ast.For) and norm(st.iter) == "config.items()" and isinstance(st.target, ast.Tuple) and len(st.target.elts) == 2]
+    if len(loops) != 1:
+        raise AnchorError("order_config: loop over config.items() not found")
+    loop = loops[0]
+    paths_ = symexec.paths(loop.body)
+    recs = []
+    go_call = None
+    for p_ in paths_:
+        for kind, orig, sub in p_.events:
+            if kind == "call" and isinstance(orig.func, ast.Attribute) and orig.func.attr == "append" and sub.args:
+                recs.append((orig, sub.args[0], norm(orig.func.value)))
+            if kind == "call" and isinstance(orig.func, ast.Attribute) and orig.func.attr == "get_order" and go_call is None:
+                go_call = sub
+    if len(recs) != 1 or go_call is None:
+        raise AnchorError("order_config: the record appended per row / the get_order call not found")
+    app, record, lname = recs[0]
+    go = [_n(ast.Subscript(value=go_call, slice=ast.Constant(value=i), ctx=ast.Load())) for i in range(4)]
+    # the sort
+    sort = keyf = None
+    reverse = False
+    for x in calls_in(oc):
+        if call_name(x) == "sorted" and x.args and norm(pv.resolve_alias(x.args[0])) == lname:
+            sort, keyf = x, kwarg(x, "key")
+            reverse = any(k.arg == "reverse" for k in x.keywords)
+        elif isinstance(x.func, ast.Attribute) and x.func.attr == "sort" and norm(x.func.value) == lname:
+            sort, keyf = x, kwarg(x, "key")
+            reverse = any(k.arg == "reverse" for k in x.keywords)
+    if sort is None:
+        raise AnchorError("order_config: the sort of the collected records not found")
+    key = apply_key(repo, m, pv.resolve_alias(keyf), record) if keyf is not None else record
+    # the projection: a comprehension/generator over the sorted records, or a loop over them storing into the result
+    row = children = None
+    filters = []
+    projection_ok = False
+    for n in ast.walk(oc):
+        if isinstance(n, (ast.GeneratorExp, ast.ListComp, ast.DictComp)) and len(n.generators) == 1:
+            g = n.generators[0]
+            src = g.iter
+            if src is sort or (isinstance(src, ast.Name) and src.id == lname and not any(x is n for x in ast.walk(loop))):
+                binds = _bind_pattern(g.target, record)
+                if binds is None:
+                    continue
+                filters += list(g.ifs)
+                elt = ast.Tuple(elts=[n.key, n.value], ctx=ast.Load()) if isinstance(n, ast.DictComp) else n.elt
+                e = symexec.simplify(symexec.subst(elt, binds))
+                if isinstance(e, ast.Tuple) and len(e.elts) == 2:
+                    row, children, projection_ok = e.elts[0], e.elts[1], True
+        if isinstance(n, ast.For) and n is not loop and ((isinstance(n.iter, ast.Name) and n.iter.id == lname) or n.iter is sort):
+            binds = _bind_pattern(n.target, record)
+            if binds is None:
+                continue
+            for st in walk_no_nested(n):
+                if isinstance(st, ast.If):
+                    filters.append(st.test)
+                if isinstance(st, ast.Assign) and isinstance(st.targets[0], ast.Subscript):
+                    row = symexec.simplify(symexec.subst(st.targets[0].slice, binds))
+                    children = symexec.simplify(symexec.subst(st.value, binds))
+                    projection_ok = True
+    return {"loop": loop, "append": app, "record": record, "go": go, "go_call": go_call, "sort": sort, "key": key, "reverse": reverse,
+            "row": row, "children": children, "filters": filters, "projection_ok": projection_ok}
+
+
+def _bind_pattern(target, record):
+    """loop variable(s) of a pass over the records -> the record's components"""
+    if isinstance(target, ast.Name):
+        return {target.id: record}
+    if isinstance(target, (ast.Tuple, ast.List)) and isinstance(record, (ast.Tuple, ast.List)) and len(target.elts) == len(record.elts):
+        out = {}
+        for t, r in zip(target.elts, record.elts):
+            b = _bind_pattern(t, r)
+            if b is None:
+                return None
+            out.update(b)
+        return out
+    return None
+
+
+def _key_checks(c, m, where, key_expr, item_names, order_field, direct_field, at, conds=()):
     first = key_expr.elts[0] if isinstance(key_expr, ast.Tuple) and key_expr.elts else None
-    ok = isinstance(first, ast.IfExp) and norm(first.body).replace('"', "'") == order_field and norm(first.test).replace('"', "'") == direct_field \
-        and isinstance(first.orelse, ast.UnaryOp) and isinstance(first.orelse.op, ast.USub) and norm(first.orelse.operand).replace('"', "'") == order_field
+    ok = sign_convention_ok(first, list(conds), order_field, direct_field)
     c.check("C08.R2", ok, at, f"{where}/sign-convention", f"sort key starts with `{norm(first)[:70] if first is not None else None}`; expected `order if direct else -order` "
             "(direct commands in rule order, removals in mirrored order)", key_text="sign")
     names = {n.id for n in ast.walk(key_expr) if isinstance(n, ast.Name)}
@@ -117,20 +268,27 @@ def r2(c):
     m = repo.module(PATCHING)
     mp = repo.func(PATCHING, "make_patch")
     pv = Provenance(mp)
-    # the sort key: the value handed to tree.add / tree.add_block as sort_key (directly or through a local)
+    # the sort key: the value handed to tree.add / tree.add_block as sort_key on every path through the loop that turns collected entries into tree items
+    from sa import symexec
     adds = [x for x in calls_in(mp) if isinstance(x.func, ast.Attribute) and x.func.attr in ("add", "add_block") and not (x.args and isinstance(x.args[0], ast.Constant))]
-    keys = []
-    for x in adds:
-        e = kwarg(x, "sort_key", 2 if x.func.attr == "add" else 3)
-        if e is not None:
-            keys.append(pv.resolve_alias(e))
-    if not keys or len({norm(k) for k in keys}) != 1:
-        raise AnchorError("make_patch: the sort key handed to tree.add/add_block not found (or differs between the two)")
-    itemvar = "item"
-    loops_ = GuardMap(mp).in_loop(adds[0])
-    if loops_ and isinstance(loops_[-1].target, ast.Name):
-        itemvar = loops_[-1].target.id
-    _key_checks(c, m, "make_patch.sort_key", keys[0], [itemvar], f"{itemvar}['order']", f"{itemvar}['order_direct']", repo.loc(m, adds[0]))
+    if not adds:
+        raise AnchorError("make_patch: tree.add/add_block not found")
+    loops_ = [l for l in GuardMap(mp).in_loop(adds[0]) if isinstance(l, ast.For)]
+    if not loops_ or not isinstance(loops_[-1].target, ast.Name):
+        raise AnchorError("make_patch: the loop over the collected entries not found")
+    itemvar = loops_[-1].target.id
+    seen_keys = 0
+    for p_ in symexec.paths(loops_[-1].body):
+        for kind, orig, sub in p_.events:
+            if kind == "call" and any(orig is a_ for a_ in adds):
+                e = kwarg(sub, "sort_key", 2 if orig.func.attr == "add" else 3)
+                if e is None:
+                    continue
+                seen_keys += 1
+                if seen_keys <= 2 or not isinstance(e, ast.Tuple):
+                    _key_checks(c, m, "make_patch.sort_key", e, [itemvar], f"{itemvar}['order']", f"{itemvar}['order_direct']", repo.loc(m, orig), conds=p_.conds)
+    if not seen_keys:
+        raise AnchorError("make_patch: the sort key handed to tree.add/add_block not found")
     # the dict fields come from get_order(row, direct, ...) results 0 and 1
     go = [x for x in calls_in(mp) if isinstance(x.func, ast.Attribute) and x.func.attr == "get_order"]
     ok = False
@@ -146,39 +304,29 @@ def r2(c):
     c.check("C08.R2", ok, repo.loc(m, go[0] if go else mp), "make_patch/get_order-args", "get_order is not asked about this row with this command's direct flag", key_text="go-args")
     oc = repo.func(PATCHING, "Orderer.order_config")
     srt = [x for x in calls_in(oc) if call_name(x) == "sorted"]
-    # reversing a sorted sequence is not the descending stable sort: equal keys come out in the opposite of their input order
-    pvo = Provenance(oc)
-    flipped = []
-    for x in ast.walk(oc):
-        tgt = None
-        if isinstance(x, ast.Call) and call_name(x) == "reversed" and x.args:
-            tgt = x.args[0]
-        elif isinstance(x, ast.Subscript) and isinstance(x.slice, ast.Slice) and x.slice.lower is None and x.slice.upper is None and x.slice.step is not None and norm(x.slice.step) == "-1":
-            tgt = x.value
-        elif isinstance(x, ast.Call) and isinstance(x.func, ast.Attribute) and x.func.attr == "reverse" and not x.args:
-            tgt = x.func.value
-        if tgt is not None:
-            v = pvo.resolve_alias(tgt)
-            if (isinstance(v, ast.Call) and call_name(v) == "sorted") or any(call_name(o) == "sorted" for o in pvo.origin_calls(tgt, through_calls=False)):
-                flipped.append(x)
+    flipped = _reversed_sorted(oc)
     if flipped:
         c.violated("C08.R2", repo.loc(m, flipped[0]), "order_config.key", f"`{norm(flipped[0])[:70]}` reverses a sorted sequence: rows with equal order (several lines matched by one rule, "
                    "or by no rule) come out in the opposite of their configuration order — a stable sort with a negated key keeps them", key_text="reversed-sorted")
         return
-    keyf = kwarg(srt[0], "key") if srt else None
-    body = arg = None
-    if isinstance(keyf, ast.Lambda):
-        body, arg = keyf.body, keyf.args.args[0].arg
-    elif isinstance(keyf, (ast.Name, ast.Attribute)):
-        r = repo.resolve(m, norm(keyf)) if isinstance(keyf, ast.Name) else None
-        if r and isinstance(r[2], ast.FunctionDef):
-            kf = repo.canon(r[0], r[2])
-            rets = [n for n in walk_no_nested(kf) if isinstance(n, ast.Return) and n.value is not None]
-            if len(rets) == 1 and kf.args.args:
-                body, arg = rets[0].value, kf.args.args[0].arg
-    if body is None:
-        raise AnchorError("order_config: key function of sorted(...) not found")
-    _key_checks(c, m, "order_config.key", body, [arg], f"{arg}['order']", f"{arg}['direct']", repo.loc(m, srt[0]))
+    rc = ranked_config(repo, m, oc)
+    if rc["key"] is None:
+        raise AnchorError("order_config: key function of the sort not found")
+    key = rc["key"]
+    if not isinstance(key, ast.Tuple):
+        key = ast.Tuple(elts=[key], ctx=ast.Load())
+    first = key.elts[0] if key.elts else None
+    ok = sign_convention_ok(first, [], rc["go"][0], rc["go"][1])
+    c.check("C08.R2", ok, repo.loc(m, rc["sort"]), "order_config.key/sign-convention", f"sort key starts with `{norm(first)[:70] if first is not None else None}`; expected `order if direct else -order` "
+            "(direct commands in rule order, removals in mirrored order)", key_text="sign")
+    # locality: the key is made of this row's own get_order results only
+    txt = _n(key)
+    for g_ in rc["go"][:3]:
+        txt = txt.replace(g_, "G")
+    import re as _re
+    extra = sorted(set(_re.findall(r"[A-Za-z_][A-Za-z0-9_.]*", txt)) - {"G", "if", "else", "not", "and", "or"})
+    c.check("C08.R2", not extra, repo.loc(m, rc["sort"]), "order_config.key/locality", f"sort key reads {extra}: the relative order of two rows would depend on something other than the rows themselves",
+            key_text="locality")
     c.count("functions", 2)
 
 
